@@ -43,6 +43,10 @@ class Prop(BaseProp):
             if kind in GROUPS:
                 nargs = vlib.OPS[kind][2]
                 args = [val() for _ in range(nargs)]
+                if kind in ('product3', 'sum3', 'mul') and rng.below(3) == 0:
+                    # a factor / term with real part exactly zero and non-zero derivative parts
+                    zi = rng.below(nargs)
+                    args[zi] = genvals.gen_value(rng, ty, genvals.leaf_rand, re_leaf=lambda r: 0.0)
                 add(kind, args)
                 for f in GROUPS[kind]:
                     add(f, args)
